@@ -22,7 +22,7 @@ echo "seed $NAME: tests='$TESTS' demo_clean=$CLEAN demo_mutated=$MUT"
 git -C /repo apply $SRC/patch.diff
 RES=""
 for c in $ID "$@"; do
-  out=$(./run $c quick 2>&1); rc=$?
+  out=$(VERIF_EVIDENCE_DIR=/tmp/ev_seed_$NAME ./run $c quick 2>&1); rc=$?
   line=$(echo "$out" | grep -E "^$c " | tail -1)
   nv=$(echo "$out" | grep -c "^VIOLATION")
   first=$(echo "$out" | grep -A1 "^VIOLATION" | grep "what:" | head -1 | cut -c1-260)
